@@ -37,6 +37,21 @@ CHECKS["C19"] = ("exploration",
     "when it does not corrupt anything in that run. Interleavings are sampled, not enumerated.",
     "trusts TSan/ASan runtimes; OS scheduling on 16 cores", "DESIGN.md C19")
 
+CHECKS["C17"] = ("exploration",
+    "differential testing of hashtable/skiplist/trie against a dictionary + notifier-registry model (ASan)",
+    "Every op result (get, rm, count, complete/prefix iteration incl. order) and the multiset of notifier "
+    "invocations of every op (event, key, old, new, user data; FREE exactly once per value incl. destroy) is "
+    "compared with a model, over adversarial key pools, for each implementation.",
+    "model written from qbmap.h; INSERTED judged on trie only; values non-NULL, keys non-empty", "DESIGN.md C17")
+CHECKS["C18"] = ("exploration",
+    "same engine with up to 4 open iterators under mutation: ASan for memory safety, per-iterator coverage "
+    "oracle, dictionary equivalence once iterators are gone",
+    "Histories interleave iter create/next/free (also early) with put/rm/get, removal biased to parked entries. "
+    "Violation keys carry the hazard class of the history (P put while open, R rm of parked entry, D repeated rm) "
+    "and restricted stages (no R for skiplist; documented use for trie) must stay clean, so the known trie and "
+    "skiplist findings do not hide regressions outside their class.",
+    "ASan quarantine 64 MiB; known findings listed in known_findings.json", "DESIGN.md C18")
+
 REASON_PENDING = "check not registered yet in this revision (implementation in progress, see DESIGN.md section 7)"
 
 
